@@ -84,7 +84,7 @@ def main():
             na.append({"property_id": pid, "reason": NA.get(pid, PENDING_REASON)})
     m = {
         "version": 1,
-        "setup_cmd": "cd /verif/mc && CARGO_NET_OFFLINE=true cargo build --release --offline --bins 2>&1 | tail -5",
+        "setup_cmd": "cd /verif/mc && CARGO_NET_OFFLINE=true cargo build --release --offline " + " ".join("--bin " + c.lower() for c in sorted(CHECKS) if c != "C20") + " 2>&1 | tail -5" + ("; cd /verif/mc-py && CARGO_NET_OFFLINE=true cargo build --release --offline --bin c20 2>&1 | tail -5" if "C20" in CHECKS else ""),
         "hooks": {
             "guard": "cargo feature `verif-hooks` (chia-bls, clvm-utils, chia-datalayer); off by default",
             "enable": "the harness crate /verif/mc depends on /repo/crates/{chia-bls,clvm-utils,chia-datalayer} by path with features=[\"verif-hooks\"]; nothing else turns it on",
